@@ -703,6 +703,9 @@ func GenKPlanC18(r *core.Rng) *KPlan {
 			// the caller's slice has spare capacity (built with append, cut out of a larger buffer) and may be sent again
 			shape = uint32(r.Intn(32))
 		}
+		if r.Chance(1, 2) {
+			shape |= uint32(r.Intn(8)) << 5 // what the caller left in Header.Len
+		}
 		return KOp{K: kSendRaw, A: uint32(ln), B: flags, C: typ, D: int64(pid), E: shape}
 	}
 	recvOp := func() KOp {
